@@ -316,6 +316,13 @@ class Check:
             if j < self.sample_budget:
                 self.samples[j] = s
 
+    def tag_active(self, name):
+        """True when the known finding whose matcher/tag is `name` is listed as 'known' in
+        known_findings.json AND its reproducer still fails on the current tree.  Checks use it to
+        exclude a known defect by construction (and must count what they exclude); when the tag is
+        not active the inputs are generated and judged normally."""
+        return any(n == name for _, n in self.active_matchers)
+
     def run(self, stmts, timeout=None):
         if self.drv is None:
             self.drv = Driver(self.variant, self.exe, self.timeout)
@@ -372,7 +379,7 @@ class Check:
     def _offer(self, case, v):
         for kid, name in self.active_matchers:
             try:
-                if self.matchers[name](case, v):
+                if name in self.matchers and self.matchers[name](case, v):
                     self.excluded[kid] = self.excluded.get(kid, 0) + 1
                     return
             except Exception:
